@@ -214,7 +214,7 @@ func (o c17outcome) String() string { return o.Class + "/" + o.Echo + "/" + o.Se
 // c17: a request's outcome does not depend on other requests, concurrent or earlier.
 func c17(c *Ctx) {
 	c.R.Rule = "abstract case = (burst of random calls over all routes of a two-service schema with per-route different required headers; request kinds: well-formed, all-default, partly default, rejected for a missing header / an over-long field after binding / a malformed body or URL value sent raw) x parallelism {2, 8, 64} x GOMAXPROCS {2, 16} x repetition, plus deterministic one-at-a-time sequences (every kind of rejection followed by default-valued requests on the same and on every other route, follow-ups re-issued alone in a fresh process), each burst in a FRESH race-instrumented child process (lazily initialised package state is only racy on first use; validator construction is held open by a failpoint delay); " +
-		"monitors: Go race detector log, offline history checker (exactly-once handler entry per call id, result = f(request), per-call header isolation, agreement with an isolated sequential execution in another fresh process), porcupine cross-check with a stateless per-call model; non-trivial = a burst completed and its history was checked"
+		"monitors: Go race detector log, offline history checker (exactly-once handler entry per call id, result = f(request), per-call header isolation, agreement with an isolated sequential execution in another fresh process), porcupine cross-check with a stateless per-call model; non-trivial = a (schedule configuration, route, request kind) triple for which at least one call completed and was judged by every monitor"
 	c.R.Assume("stateless sequential specification: each call's result is a function of its own request and options; race detector sees only executed access pairs")
 	pkg := "c17.c"
 	f := c17schema(pkg)
@@ -586,6 +586,8 @@ func c17check(c *Ctx, caseID string, calls []c17call, burst, seq []c17outcome, p
 		if b.String() != seq[i].String() {
 			c.R.Violate(caseID, "differs-from-isolated-execution", "", rp(i, nil))
 		}
+		// what was observed, per (schedule configuration, route, request kind)
+		c.R.Decided(caseID + "/" + cl.RPC + "/" + cl.Kind)
 	}
 	// exactly-once: the handler log of the burst, keyed by the unique X-Call id
 	entered := map[string]int{}
